@@ -186,6 +186,15 @@ func (vc *VC) Oblige(o *Obligation) {
 		}
 		return
 	}
+	if !o.WantSat && o.Goal.Op == "=>" && len(o.Goal.Args) == 2 && o.Goal.Args[1].Op == "and" && len(o.Goal.Args[1].Bound) == 0 && vc.quantDepth == 0 {
+		for i, g := range o.Goal.Args[1].Args {
+			c := *o
+			c.Goal = Implies(o.Goal.Args[0], g)
+			c.Name = fmt.Sprintf("%s.%d", o.Name, i+1)
+			vc.Oblige(&c)
+		}
+		return
+	}
 	// split by the disjuncts of the reachability condition (one query per incoming path of a join)
 	if !o.WantSat && !o.noPathSplit && vc.quantDepth == 0 {
 		// find a conjunct of the guard that is (defined as) a disjunction
